@@ -55,6 +55,9 @@ type Watch struct {
 	cancel   context.CancelFunc
 	Epoch    int // node incarnation it was registered on
 	ChangeAt int // node change counter at registration
+	// scratch for harnesses that poll the watcher
+	SeenValue string
+	SeenCalls int
 }
 
 // Cluster is a set of detached KV nodes plus the message pool.
